@@ -36,14 +36,14 @@ CHECKS = {
  "C17": (M + "handler-log oracle: generated command statements (keyword-prefixed and multi-byte names, hostile words, expression arguments, tab/blank separators) compared with the typing rule of the property",
          "Held on the executions observed; every hostile word and every keyword-prefixed name is required by the coverage floor. Known finding K3 (names beginning with else/endif/endenum) is listed in known_findings.json.",
          T_MODEL + "'Decimal literal' = the grammar's NUMBER, optionally negative."),
- "C05": (M + "differential oracle: NewDialogueRunner's verdict compared with an independent parse (the grammar's lexer and parser under the harness's own counting error listeners) over generated programs, token-level mutations, truncations, raw bytes, reader splits and seed strings; panic capture, child watchdog",
+ "C05": (M + "differential oracle: NewDialogueRunner's verdict compared with an independent parse (the grammar's lexer and parser under the harness's own counting error listeners; tab/blank-mixed indentation of statement lines is judged by the harness itself) over generated programs, token-level mutations, truncations, raw bytes, reader splits and seed strings; panic capture, child watchdog",
          "Held on the executions observed: err == nil iff the oracle finds the input valid, never a panic; the oracle is cross-checked by by-construction labels.",
          "Trusted: the repository's grammar as the definition of validity, the harness's error listeners. Inputs <= ~2 KiB."),
  "C09": (M + "repeated execution: SHA-256 trace digests of one (script, seed, choice policy) compared across back-to-back runs, runs after unrelated runners, and three fresh processes per chunk; interval and integrality checks on captured draws",
          "Held on the executions observed: 6 executions per case incl. 3 fresh processes with different GOMAXPROCS and execution order; about 10^5 range-checked draws per quick run.",
          "Trusted: the harness's digest (covers elements, attribute lists, error texts, final variables). Error texts are compared between executions of one build only."),
  "C10": (M + "Go race detector (GORACE log files counted by the parent) + gated completion schedules: the harness controls when each command reports completion, so 'pending' is a logical state; handler invocation log; monotonic lower bound for <<wait n>>",
-         "Held on the executions observed: 8 handler shapes x completion after 0-5 polls x nil/error, real goroutine timings with 4 runners in parallel, zero race reports with a ysgo frame.",
+         "Held on the executions observed: 8 handler shapes x completion after 0-5 polls x nil/error, an abandon scenario (RestoreAt while pending, stale completion arriving later), real goroutine timings with 4 runners in parallel (half of them with handlers that share nothing with the harness), zero race reports with a ysgo frame, race-detector plumbing confirmed by a canary.",
          "Trusted: the race detector; the stated 10 s scheduling-stall assumption for the 'Next blocked' verdict; wait is judged by a lower bound only."),
  "C13": (M + "ground truth by construction: the generator records for every marker the rune range it encloses in the final text; compared with ParseMarkup results and TextForAttribute, directly and through dialogues",
          "Held on the executions observed: about 6*10^4 (quick) lines with every feature of the generator required by the coverage floor.",
@@ -55,10 +55,10 @@ CHECKS = {
          "Held on the executions observed: about 3*10^5 strings per quick run.",
          "Trusted: rune counting as Go does it. A call that does not return is attributed through the on-disk progress marker and confirmed alone."),
  "C16": (M + "reflection-built probes: function types from reflect.FuncOf registered through the converting calls and invoked from scripts; reflect.MakeFunc probes record received arguments; conditional oracle (accepted => works) + unconditional must-refuse set; child-process crash containment for panics in the bridge goroutine",
-         "Held on the executions observed; all one-parameter signatures are enumerated completely, the rest PRNG-sampled (2600 quick / 60000 thorough signatures, 10/24 script-side calls each).",
+         "Held on the executions observed; all one-parameter signatures are enumerated completely in both tiers, all two-parameter and one-parameter-plus-variadic signatures in the thorough tier (30690 signatures), the rest PRNG-sampled; 10/24 script-side calls per accepted signature.",
          "Trusted: reflect; the conversion oracle stated in the evidence rule (range-checked integers, float32 only on representable values)."),
  "C18": (M + "Go race detector over concurrent creation and stepping of independent runners in fresh child processes (cold ANTLR caches), with sequential reference traces from another fresh process; no harness-side synchronisation during the concurrent phase",
-         "Held on the executions observed: 16 (quick) / 400 (thorough) children with 2-64 goroutines each; zero race reports with a ysgo/antlr frame; every concurrent trace equals its sequential reference.",
+         "Held on the executions observed: 16 (quick) / 400 (thorough) children with 2-64 goroutines each; zero race reports with a ysgo/antlr frame (plumbing confirmed by a canary); every concurrent trace equals its sequential reference.",
          "Trusted: the race detector (only observes interleavings that happened); per-goroutine time stamps for the interleaving evidence."),
  "C20": (M + "slice-model oracle: bounded-exhaustive enumeration of enqueue/dequeue sequences + hovering PRNG sequences across growths with a wrapped head (verif hook for coverage), stack model, and an INDENT/DEDENT balance monitor over token streams of valid, mutated and raw inputs",
          "Held on the executions observed; the enqueue/dequeue sequences of length 18 (quick) / 24 (thorough) are enumerated completely.",
